@@ -56,3 +56,10 @@ TEXT["C04"] = {
     "note": "trusts the harness's reference inference (harness/src/ast.rs: Infer)",
     "technique": "reference-model monitor (independent first-order unifier) over generated DAGs x construction orders, with crash capture",
 }
+TEXT["C09"] = {
+    "level": ("Every node kind and conversion path of tens of thousands of generated programs is compared with an independent from-scratch hasher; decides root stability on each explored "
+              "program, witness assignment and hidden set. Injectivity is monitored, not proved."),
+    "design_ref": "DESIGN.md section 5, C09",
+    "note": "trusts the harness SHA-256 and tag strings (harness/src/{sha,ast}.rs)",
+    "technique": "reference-model monitor (from-scratch Merkle hasher) across node kinds and conversions",
+}
